@@ -31,9 +31,14 @@ def run(ctx: Ctx) -> None:
     loc_fv = repo.loc("pprint", repo.func("pprint.PrettyPrinter.format_value"))
 
     ctx.rule("M1", "every (type, keyword, value class, quote) is printed in the lexical class MapServer requires", 1500)
+    from .c19 import special_block_rules as _sbr
+
+    special_keys = set(_sbr(G)) | set(repo.const("tokens", "REPEATED_KEYS"))
     n = 0
     for t in S.types():
         for k, node in sorted(S.slots(t).items()):
+            if k in special_keys:
+                continue  # written by the special writers (M2)
             for vc in printer.classes_for(S, t, k, node):
                 for q in ('"', "'"):
                     n += 1
@@ -63,7 +68,8 @@ def run(ctx: Ctx) -> None:
         d = HDict()
         d["somekey"] = s1("v")
         lines = one("pprint.PrettyPrinter.process_config_dict", lambda: [d, 0])
-        good = lines == [SStr(["CONFIG ", q, "SOMEKEY", q, " ", q, Atom("v", first=printer.WORD, last=printer.WORD, excludes=frozenset("\"'`"), free=True), q])]
+        vq = [" ", q, Atom("v", first=printer.WORD, last=printer.WORD, excludes=frozenset("\"'`"), free=True), q]
+        good = lines in ([SStr(["CONFIG ", q, "SOMEKEY", q] + vq)], [SStr(["CONFIG ", q, "somekey", q] + vq)])
         ctx.check(good, "M2", f"CONFIG (quote {q})", repo.loc("pprint", repo.func("pprint.PrettyPrinter.process_config_dict")), "CONFIG Q KEY Q Q value Q", f"CONFIG written as {lines!r}")
         md = HDict()
         md["__type__"] = "metadata"
